@@ -222,12 +222,25 @@ func propC07(a *Analysis, r *Registry) {
 				if v.Equal(lo) || v.Equal(hi) {
 					continue
 				}
-				early := false
-				func() {
-					defer func() { recover() }()
-					fc.ReachCond(rt.Block())
-					early = true
-				}()
+				// an end-point decision returns one of the five stated values (their conditions are decided above)
+				// (a helper may return a choice between two of them: every leaf of the gated value must be one)
+				var allowed []*RF
+				for _, sv := range []string{"stats.nan", "dist.Bounds()#0", "-stats.inf", "dist.Bounds()#1", "stats.inf"} {
+					allowed = append(allowed, env.MustParse(sv))
+				}
+				var leavesOK func(x *RF) bool
+				leavesOK = func(x *RF) bool {
+					if at := x.SingleAtom(); at != nil && at.Name == "ite" && len(at.Args) == 3 {
+						return leavesOK(at.Args[1]) && leavesOK(at.Args[2])
+					}
+					for _, al := range allowed {
+						if x.Equal(al) {
+							return true
+						}
+					}
+					return false
+				}
+				early := leavesOK(v)
 				if !early {
 					other++
 					r.Fail("B-C07 bisection", name+"/other-return", a.W.InstrPos(rt), "a path returns a value that is neither an end-point decision, an infinite bracket end, nor result 1 of bisectBool: "+clip(v.String(), 160))
